@@ -28,6 +28,7 @@ def canon(d):
 from common import CORPUS
 from gen import sdl
 from corr import C11_extend
+from corr import C11_additional
 
 PROPERTY = "C11"
 RULE = ("generated type-system documents: declared content (6 kinds, wrappers, defaults of every input kind, descriptions, "
@@ -928,6 +929,11 @@ def _live_additional(wire):
         elif k == "object":
             reg[n] = S.ObjectType(n, (lambda t=t: [S.Field(f["name"], lazy(f["type"]), description=f.get("desc"),
                                                            deprecation_reason=f.get("deprecated")) for f in t["fields"]]), description=d)
+        elif k == "interface":
+            reg[n] = S.InterfaceType(n, (lambda t=t: [S.Field(f["name"], lazy(f["type"]), description=f.get("desc"),
+                                                              deprecation_reason=f.get("deprecated")) for f in t["fields"]]), description=d)
+        elif k == "union":
+            reg[n] = S.UnionType(n, (lambda t=t: [reg[m] for m in t["members"]]), description=d)
         else:
             continue
         out.append(reg[n])
@@ -936,6 +942,7 @@ def _live_additional(wire):
 
 def run(ctx):
     batch = Batch()
+    add_probes = C11_additional.run_probes(ctx, real_build, _live_additional, sdl.doc_json, canon)     # deterministic, no ctx.rng
     run_corpus(ctx, batch)
     run_generated(ctx, batch)
     run_extend(ctx, batch)
@@ -951,6 +958,7 @@ def run(ctx):
     run_model(ctx, batch)
     ctx.extra["documents_sent_to_model"] = len(batch.cases)
     C11_extend.run_model(ctx, probes, EXT_CASES, canon, sort_dump, diff_path)
+    C11_additional.run_model(ctx, add_probes, canon, sort_dump, diff_path)
 
 
 def replay(ctx, data):
@@ -964,6 +972,8 @@ def replay(ctx, data):
         c2 = type(ctx)(ctx.prop, ctx.tier, ctx.seed)
         (run_special if inp.get("special") else run_schema_directives)(c2)
         return not any(f["kind"] == "property" and f["detail"].get("sdl") == inp.get("sdl") for f in c2.found)
+    if "additional_probe" in inp:
+        return C11_additional.replay(real_build, _live_additional, canon, inp)
     if "ignored_in_lax" in inp:
         real = real_extend(inp["base_sdl"], inp["ext_sdl"], inp.get("strict", True))
         if inp.get("strict", True):
